@@ -93,6 +93,7 @@ package wal
 
 //@ impl ReadWriteSegment *readWriteSegment
 //@ impl ReadOnlySegmentsGroup *readOnlySegmentsGroup
+//@ impl Wal *wal
 
 //@ define curSeg(t *wal) *readWriteSegment = as(t.currentSegment, *readWriteSegment)
 
@@ -241,6 +242,14 @@ package wal
 //@ ensures result == nil ==> walInv(t) && t.lastAppendedOffset.v == entry.Offset && (old(t.lastAppendedOffset.v) == -1 || entry.Offset == old(t.lastAppendedOffset.v) + 1)
 //@ ensures result == nil ==> t.lastSyncedOffset.v == old(t.lastSyncedOffset.v)
 //@ ensures result != nil ==> t.lastAppendedOffset.v == old(t.lastAppendedOffset.v) && t.lastSyncedOffset.v == old(t.lastSyncedOffset.v) && t.firstOffset.v == old(t.firstOffset.v)
+//@ modifies fields(wal), fields(readWriteSegment), fields(readOnlySegmentsGroup), fields(readOnlySegment), fields(segmentConfig), fields(uint8), ghset(keys, as(t.readOnlySegments, *readOnlySegmentsGroup).allSegments), ghset(keys, as(t.readOnlySegments, *readOnlySegmentsGroup).openSegments)
+
+//@ func wal.Sync
+//@ trusted
+//@ modifies t.lastSyncedOffset.v
+//@ ensures result == nil ==> t.lastSyncedOffset.v >= old(t.lastAppendedOffset.v) && t.lastSyncedOffset.v <= t.lastAppendedOffset.v
+//@ ensures result != nil ==> t.lastSyncedOffset.v == old(t.lastSyncedOffset.v)
+//@ note trusted: the flush runs on the WAL's sync goroutine and reports through a callback (channels and goroutines are outside the verified subset); sequential view: everything appended before the call is synced when it returns nil
 
 //@ func wal.Clear
 //@ property C09
@@ -266,6 +275,7 @@ package wal
 //@ ensures err == nil ==> res == t.lastAppendedOffset.v && res == t.lastSyncedOffset.v
 //@ ensures err == nil ==> res == -1 || res == lastSafeOffset
 //@ ensures err == nil && old(t.lastAppendedOffset.v) != -1 ==> walInv(t)
+//@ modifies fields(wal), fields(readWriteSegment), fields(readOnlySegmentsGroup), fields(readOnlySegment), fields(segmentConfig), fields(uint8), ghset(keys, as(t.readOnlySegments, *readOnlySegmentsGroup).allSegments), ghset(keys, as(t.readOnlySegments, *readOnlySegmentsGroup).openSegments)
 
 // ---------------------------------------------------------------------------
 // Readers
